@@ -765,7 +765,12 @@ class Interp:
             for s, pos, kw in cur:
                 vals, r = self.eval(s, k.value)
                 raises += r
-                nxt += [(s2, pos, {**kw, (k.arg or "**"): av}) for s2, av in vals]
+                for s2, av in vals:
+                    if k.arg is None and av.kind == "dict" and not av.val[1] and "**" not in kw:
+                        # f(**{"a": x, "b": y}) with a closed dictionary built earlier is f(a=x, b=y)
+                        nxt.append((s2, pos, {**kw, **{kk: vv for kk, vv in dslots(av).items() if kk not in kw}}))
+                    else:
+                        nxt.append((s2, pos, {**kw, (k.arg or "**"): av}))
             cur = nxt
         return cur, raises
 
